@@ -334,8 +334,11 @@ func genDates(t *rapid.T) dateTriple {
 		// instants coincide, and coincide although the instants are more than a day apart
 		base := time.Unix(rapid.Int64Range(-2000000000, 4000000000).Draw(t, "instant"), 0)
 		for i := range tr.V {
-			loc := rapid.SampledFrom([]string{"Etc/GMT-14", "Etc/GMT+12", "Pacific/Kiritimati", "Pacific/Niue", "UTC", "Asia/Tokyo", "America/New_York", "Europe/Berlin", "Australia/Sydney"}).Draw(t, "instant.loc")
-			at := base.Add(time.Duration(rapid.SampledFrom([]int{0, 0, 24, -24, 25, -25, 23, 26, 48}).Draw(t, "instant.hours")) * time.Hour).Add(time.Duration(rapid.SampledFrom([]int{0, 0, 15, -15, 45}).Draw(t, "instant.minutes")) * time.Minute)
+			// (... and beyond them: local mean time on both sides of the old date line - Manila at -15:56, Juneau at +15:02 before
+			// 1845 / 1867 - and fixed zones a day and more from Greenwich, which the time package allows)
+			loc := rapid.SampledFrom([]string{"Etc/GMT-14", "Etc/GMT+12", "Pacific/Kiritimati", "Pacific/Niue", "UTC", "Asia/Tokyo", "America/New_York", "Europe/Berlin", "Australia/Sydney",
+				"fixed:+1502", "fixed:-1556", "fixed:-1421", "fixed:+1800", "fixed:-2000", "fixed:+2600"}).Draw(t, "instant.loc")
+			at := base.Add(time.Duration(rapid.SampledFrom([]int{0, 0, 24, -24, 25, -25, 23, 26, 48, 30, -31, 50, -52}).Draw(t, "instant.hours")) * time.Hour).Add(time.Duration(rapid.SampledFrom([]int{0, 0, 15, -15, 45}).Draw(t, "instant.minutes")) * time.Minute)
 			w := at.In(api.LoadLocation(loc))
 			tr.V[i] = dv{C: spec.Civil{Y: w.Year(), M: int(w.Month()), D: w.Day()}, Loc: loc, Clock: [3]int{w.Hour(), w.Minute(), w.Second()}}
 		}
